@@ -4,7 +4,13 @@ quick check of its property (and of the properties listed under "also" in its me
 no VIOLATION line at all. Recorded in neutral/RESULTS.json per check: clean | broken-obligation (a proof obligation / the translator stopped
 checking and no failing input was found - admitted by the interface for harmless rewrites, reported with no-failing-input-found) |
 FALSE-ALARM (a replay claims a failing input or a model/implementation disagreement on code whose behaviour is unchanged) | check-crashed."""
-import glob, json, os, subprocess, sys, time
+import glob, json, os, re, subprocess, sys, time
+
+
+def own_replays(out):
+    """the replay files named by this run's own VIOLATION lines (several matrices may run side by side and share replays/)"""
+    return sorted({m for m in re.findall(r'VIOLATION property=\S+ replay=(\S+)', out) if os.path.exists(m)})
+
 os.chdir('/verif')
 ids = sys.argv[1:] or sorted(os.path.basename(d) for d in glob.glob('neutral/C*-*'))
 res_path = os.environ.get('MATRIX_RESULTS', 'neutral/RESULTS.json')
@@ -19,7 +25,7 @@ for nid in ids:
         t = time.time()
         r = subprocess.run(['tools/try_mutant.sh', f'neutral/{nid}/patch.diff', prop], capture_output=True, text=True)
         out = r.stdout + r.stderr
-        new = sorted(set(glob.glob(f'replays/{prop}-*.json')) - before)
+        new = own_replays(out)
         kinds, detail = {}, []
         for f in new:
             try:
